@@ -3,6 +3,8 @@ package processor
 import (
 	"context"
 
+	gossipv1 "github.com/alephium/wormhole-fork/node/pkg/proto/gossip/v1"
+	"github.com/alephium/wormhole-fork/node/pkg/vaa"
 	"github.com/alephium/wormhole-fork/node/pkg/zzverif"
 )
 
@@ -27,4 +29,97 @@ func verifC13ObserveTwice(ctx context.Context) {
 		p.handleMessage(ctx, k)
 		zzverif.Reach("observed-again")
 	})
+}
+
+func verifBytesOrNil(tag string, lens ...int) []byte {
+	n := zzverif.Len(tag+".len", lens...)
+	if n < 0 {
+		return nil
+	}
+	return zzverif.Blob(tag, n)
+}
+
+// C13: K-event histories over the processor's input channels, starting from the UNINITIALISED processor (no guardian
+// set yet). Every handler call is wrapped in NoPanic; after a dropped input the history simply continues.
+//
+//	0 guardian-set update (0..2 keys)      1 chain message M (payload 0..1 bytes, any fields)   2 delivery of the queued own observation
+//	3 gossiped observation, adversarial: address/digest/signature each nil, short, exact or long, contents arbitrary
+//	4 honest observation of M by member 1   5 inbound "signed VAA" of arbitrary bytes (nil, empty, 59, 60, 126 bytes; at most one signature announced)
+//	6 inbound well-formed VAA for M signed by members 0..n-1   7 injected VAA (payload 0..1 bytes, no signatures)
+//	8 cleanup tick after an arbitrary clock advance
+func VerifC13_Histories() { zzverif.Supervised(verifC13Histories) }
+
+func verifC13Histories(ctx context.Context) {
+	K := zzverif.Len("K", 1, 2, 3, 4, 5)
+	wide := K <= 2 // short histories range over all malformed-length combinations, longer ones over the boundary ones
+	p := verifNewProcessor(0)
+	k := verifMessage("m")
+	n := 0
+	for step := 0; step < K; step++ {
+		switch zzverif.Len("ev", 0, 1, 2, 3, 4, 5, 6, 7, 8) {
+		case 0:
+			n = zzverif.Len("setsize", 0, 1, 2)
+			gs := verifSet(zzverif.U32("gsidx"), verifRange(0, n)...)
+			zzverif.NoPanic(func() { p.gs = gs; p.gst.Set(gs) })
+		case 1:
+			zzverif.NoPanic(func() { p.handleMessage(ctx, k) })
+		case 2:
+			if o := verifRecvObs(p); o != nil {
+				zzverif.NoPanic(func() { p.handleObservation(ctx, o) })
+			}
+		case 3:
+			var o *gossipv1.SignedObservation
+			if wide {
+				o = &gossipv1.SignedObservation{Addr: verifBytesOrNil("adv.addr", -1, 0, 19, 20, 21), Hash: verifBytesOrNil("adv.hash", -1, 0, 31, 32, 33),
+					Signature: verifBytesOrNil("adv.sig", -1, 0, 64, 65, 66), TxHash: verifBytesOrNil("adv.tx", -1, 32)}
+			} else {
+				switch zzverif.Len("adv.form", 0, 1, 2, 3) {
+				case 0: // well-formed lengths, arbitrary contents
+					o = &gossipv1.SignedObservation{Addr: zzverif.Blob("adv.addr", 20), Hash: zzverif.Blob("adv.hash", 32), Signature: zzverif.Blob("adv.sig", 65)}
+				case 1: // everything nil
+					o = &gossipv1.SignedObservation{}
+				case 2: // short signature
+					o = &gossipv1.SignedObservation{Addr: zzverif.Blob("adv.addr", 20), Hash: zzverif.Blob("adv.hash", 32), Signature: zzverif.Blob("adv.sig", 64)}
+				default: // short digest, long address
+					o = &gossipv1.SignedObservation{Addr: zzverif.Blob("adv.addr", 21), Hash: zzverif.Blob("adv.hash", 31), Signature: zzverif.Blob("adv.sig", 65)}
+				}
+			}
+			zzverif.NoPanic(func() { p.handleObservation(ctx, o) })
+		case 4:
+			d := verifVAAOf(k, 0).SigningMsg()
+			o := verifObsBy(1, d[:])
+			zzverif.NoPanic(func() { p.handleObservation(ctx, o) })
+		case 5:
+			var m *gossipv1.SignedVAAWithQuorum
+			if wide {
+				m = &gossipv1.SignedVAAWithQuorum{Vaa: verifBytesOrNil("in.raw", -1, 0, 59, 60, 126)}
+			} else {
+				m = &gossipv1.SignedVAAWithQuorum{Vaa: verifBytesOrNil("in.raw", -1, 60)}
+			}
+			// decoder totality on every byte string is C05's subject; here at most one signature is announced
+			zzverif.Assume(len(m.Vaa) < 6 || m.Vaa[5] <= 1)
+			zzverif.NoPanic(func() { p.handleInboundSignedVAAWithQuorum(ctx, m) })
+		case 6:
+			v := verifVAAOf(k, zzverif.U32("in.gsi"))
+			d := v.SigningMsg()
+			for i := 0; i < n; i++ {
+				s := &vaa.Signature{Index: uint8(i)}
+				copy(s.Signature[:], zzverif.SignBy(i, d[:]))
+				v.Signatures = append(v.Signatures, s)
+			}
+			raw, _ := v.Marshal()
+			zzverif.NoPanic(func() { p.handleInboundSignedVAAWithQuorum(ctx, &gossipv1.SignedVAAWithQuorum{Vaa: raw}) })
+		case 7:
+			v := verifVAAOf(k, zzverif.U32("inj.gsi"))
+			v.Payload = zzverif.Bytes("inj.payload", zzverif.Len("inj.plen", 0, 1))
+			zzverif.NoPanic(func() { p.handleInjection(ctx, v) })
+		case 8:
+			zzverif.NoPanic(func() { p.handleCleanup(ctx) })
+		}
+		verifDrainSend(p)
+		for len(verifReqC) > 0 {
+			<-verifReqC
+		}
+	}
+	zzverif.Reach("end")
 }
